@@ -5,8 +5,9 @@
 
   * `d` is a non-square, `-1` is a square (Euler's criterion evaluated by the kernel), `2 ≠ 0`;
   * completeness of the addition law (`add_complete`), closure (`add_on_curve`);
-  * the `JubjubGroupFacts` hypothesis structure (associativity: NOT proved here) and the
-    double-and-add ladder lemma under it.
+  * bridge `edAdd?` / `edAddOrId` ↔ field addition law `addF`.
+  Associativity is in `EdwardsAssoc.lean`; group structure, `smulF`, the ladder and the
+  hypothesis structure `JubjubGroupFacts` (group order only) are in `EdwardsGroup.lean`.
 -/
 import Mathlib.Tactic.LinearCombination
 import Mathlib.Tactic.FieldSimp
